@@ -435,7 +435,7 @@ func c14Flags(c *core.Case, o *core.Outcome) {
 			rd, _ := time.ParseDuration(set["repeat"])
 			sd, _ := time.ParseDuration(set["standard-deviation"])
 			fd, _ := time.ParseDuration(set["iteration-frequency"])
-			if pd > rd || sd < fd || rd < fd || fd <= 0 {
+			if pd > rd || sd < fd || rd < 2*fd || fd <= 0 {
 				inDomain = false // C11's domain: peak inside the window, sigma >= tick, tick <= window
 			}
 			if set["volume"] == "-5" || set["volume"] == "NaN" || strings.Contains(set["weights"], "-") || set["weights"] == "0" || strings.HasPrefix(set["repeat"], "-") || set["repeat"] == "0s" || strings.HasPrefix(set["peak"], "-") {
@@ -999,6 +999,8 @@ func c14CLI(c *core.Case, o *core.Outcome) {
 			common()
 		case "file":
 			doc, _ := c14GenYAML(r)
+			// keep accepted plans short: the CLI really runs them
+			doc = strings.ReplaceAll(strings.ReplaceAll(doc, ": 10m", ": 150ms"), ": 1h", ": 300ms")
 			if r.IntN(3) == 0 {
 				doc = strings.Replace(c14ValidYAML, "max-duration: 1s", "max-duration: 80ms", 1)
 			}
